@@ -105,6 +105,7 @@ pub async fn run_suite(suite: &str, seed: u64, cases: usize) -> (String, String)
             "listen" => gen_listen(&mut sim, &mut crng, &mut stats, &name).await,
             "select" => gen_select(&mut sim, &mut crng, &mut stats, &name).await,
             "loop" => crate::loopsim::gen_loop(&mut sim.trace, &mut crng, &mut stats.counts, &name).await,
+            "round" => crate::loopsim::gen_round(&mut sim.trace, &mut crng, &mut stats.counts, &name).await,
             "apply" => gen_apply(&mut sim, &mut crng, &mut stats, &name).await,
             "catchup" => gen_catchup(&mut sim, &mut crng, &mut stats, &name).await,
             "kf1" => gen_kf1(&mut sim, &mut crng, &mut stats, &name).await,
